@@ -31,13 +31,14 @@ func verifFlags(fs *pflag.FlagSet) []VerifFlag {
 	return out
 }
 
-// VerifCommandTree lists every command of the CLI with the flags it declares (before cobra merges them).
+// VerifCommandTree lists every command of the CLI with the flags it declares. It reads c.Flags() and
+// c.PersistentFlags() only: anything that triggers cobra's merge would panic on a shorthand clash.
 func VerifCommandTree() []VerifCmd {
 	var out []VerifCmd
 	var walk func(c *cobra.Command, path []string)
 	walk = func(c *cobra.Command, path []string) {
 		p := append(append([]string(nil), path...), c.Name())
-		out = append(out, VerifCmd{Path: p, Local: verifFlags(c.LocalNonPersistentFlags()), Persistent: verifFlags(c.PersistentFlags())})
+		out = append(out, VerifCmd{Path: p, Local: verifFlags(c.Flags()), Persistent: verifFlags(c.PersistentFlags())})
 		for _, sub := range c.Commands() {
 			walk(sub, p)
 		}
